@@ -376,6 +376,19 @@ func runObject(c OCase) error {
 			if err := checkASC(i, "SetASC"); err != nil {
 				return err
 			}
+		case "set-ptr":
+			// the application writes a configuration through the pointer ASC() hands out. Whether that pointer is a live view
+			// of the object's configuration is not promised; what is: whatever ASC() reports afterwards is what Encode writes
+			if s.F.Fill%2 == 0 {
+				ad.ASC().UnmarshalBinary([]byte{f.Object<<3 | f.SFI>>1, f.SFI<<7 | f.Ch<<3})
+			} else {
+				*ad.ASC() = aac.AudioSpecificConfig{Object: aac.ObjectType(f.Object), SampleRate: aac.SampleRateIndex(f.SFI), Channels: aac.Channels(f.Ch)}
+			}
+			r := *ad.ASC()
+			cur = nil
+			if o := uint8(r.Object); (o == 1 || o == 2 || o == 3 || o == 5 || o == 29) && r.SampleRate <= 12 && r.Channels >= 1 && r.Channels <= 7 {
+				cur = &cfg{o, uint8(r.SampleRate), uint8(r.Channels)}
+			}
 		case "encode":
 			if cur == nil {
 				continue
@@ -446,9 +459,9 @@ func runObject(c OCase) error {
 
 var recObject = ev.New(prop, "adts-object-machine",
 	"rapid-generated sequences of 2-12 calls on ONE ADTS object: SetASC (accepted configurations, repeats included), Encode (raw blocks cut from one application buffer; short blocks favoured), "+
-		"Decode of frames by the independent ISO writer with other configurations, ASC(); model = the configuration last set or decoded; oracle: every encoded header and every ASC() report follows the model, "+
+		"Decode of frames by the independent ISO writer with other configurations, ASC(), a configuration written through the pointer ASC() returns (the model then follows what ASC() reports next); model = the configuration last set or decoded; oracle: every encoded header and every ASC() report follows the model, "+
 		"frames returned earlier and the application buffer stay unchanged; non-trivial = a Decode between a SetASC and a later SetASC/Encode, or >=2 Encodes").
-	Require("set-after-decode", "encode-after-decode", "two-encodes", "repeated-set")
+	Require("set-after-decode", "encode-after-decode", "two-encodes", "repeated-set", "encode-after-write-through-asc-pointer")
 
 // TestSideBySide: independent ADTS objects used on several goroutines at once.
 func TestSideBySide(t *testing.T) {
@@ -465,7 +478,7 @@ func genOCase(t *rapid.T) OCase {
 			cfgs[i].Profile = profileOf(cfgs[i].Object)
 		}
 		for i := 0; i < n; i++ {
-			op := rapid.SampledFrom([]string{"set", "encode", "encode", "decode", "decode", "asc", "decode-bad"}).Draw(t, "op")
+			op := rapid.SampledFrom([]string{"set", "encode", "encode", "decode", "decode", "asc", "decode-bad", "set-ptr"}).Draw(t, "op")
 			if i == 0 {
 				op = "set"
 			}
@@ -496,11 +509,13 @@ func TestObjectMachine(t *testing.T) {
 	ev.Rapid(t, "adts-object-machine", 6000, 4000000, func(t *rapid.T) {
 		c := genOCase(t)
 		var cl []string
-		seenDecode, encodes := false, 0
+		seenDecode, encodes, seenPtr := false, 0, false
 		var lastSet *Frame
 		for i := range c.Steps {
 			s := c.Steps[i]
 			switch s.Op {
+			case "set-ptr":
+				seenPtr = true
 			case "decode":
 				seenDecode = true
 			case "set":
@@ -513,6 +528,9 @@ func TestObjectMachine(t *testing.T) {
 				lastSet = &c.Steps[i].F
 			case "encode":
 				encodes++
+				if seenPtr {
+					cl = append(cl, "encode-after-write-through-asc-pointer")
+				}
 				if seenDecode {
 					cl = append(cl, "encode-after-decode")
 				}
